@@ -70,7 +70,7 @@ def strategy(tier):
             todo = [a]
             while todo:
                 x = todo.pop(0)
-                for i, j, _p, _f in fam["edges"]:
+                for i, j, _p, _f, *_r in fam["edges"]:
                     for u, v in ((f"{tag}{i}", f"{tag}{j}"), (f"{tag}{j}", f"{tag}{i}")):
                         if u == x and v not in dist:
                             dist[v] = dist[x] + 1
@@ -101,7 +101,7 @@ def strategy(tier):
             # re-declaration (old ratio), and as the final query (new ratio)
             flat = [(f["dim"][0].upper(), e) for f in spec["fams"] for e in f["edges"]]
             if i < len(flat) and draw(convgen.INT10) < 7:
-                tag, (ci, pj, _p, _f) = flat[i]
+                tag, (ci, pj, _p, _f, *_r) = flat[i]
                 e = draw(st.sampled_from([1, 1, 2]))
                 final = {"src": [["", f"{tag}{ci}", e]], "dst": [["", f"{tag}{pj}", e]], "mag": draw(MAG),
                          "kind": draw(st.sampled_from(["in_unit", "add", "eq", "lt", "m_add", "m_sub", "m_add"]))}
@@ -245,7 +245,7 @@ def _run_world(spec, steps, final, interleaved, out=None):
             i = st_[1]
             if not (0 <= i < len(sw.plan)):
                 continue
-            a, rhs_terms, flip = sw.plan[i]
+            a, rhs_terms, flip, _lp = sw.plan[i]
             factor = Fraction(*st_[2]) if kind == "redecl" else None
             synth.run_plan(sw, i, factor)
             if len(rhs_terms) == 1 and rhs_terms[0][2] == 1:
